@@ -616,7 +616,9 @@ func handleWorkerDeath(a *agg, pc *propCfg, id, tier string, seed uint64, bin, v
 		a.mu.Lock()
 		a.results = append(a.results, res...)
 		if len(res) == 0 || res[0].Violation == nil {
-			a.transient = append(a.transient, fmt.Sprintf("worker died at run %d (exit with trace below) but the run completed when repeated alone — not reproducible:\n%s", idx, tail(errTail, 60)))
+			tf := filepath.Join(workDir(), fmt.Sprintf("transient-death-%s-%d-%d.txt", id, idx, time.Now().Unix()))
+			os.WriteFile(tf, []byte(errTail), 0644)
+			a.transient = append(a.transient, fmt.Sprintf("%s: worker died at run %d but the run completed when repeated alone - not reproducible (trace kept in %s):\n%s", id, idx, tf, tail(errTail, 60)))
 		}
 		a.mu.Unlock()
 		return
